@@ -256,6 +256,52 @@ def run_harness_serial(lines):
     return answers
 
 
+class _Worker:
+    """a harness process kept alive across calls (one request per line, one answer per line); for callers that make many
+    small calls and do not need a fresh process per call"""
+    def __init__(self):
+        self.p = None
+
+    def start(self):
+        self.p = subprocess.Popen([HARNESS_BIN], stdin=subprocess.PIPE, stdout=subprocess.PIPE, stderr=subprocess.DEVNULL,
+                                  env=env_for_cargo())
+
+    def ask(self, line):
+        if self.p is None or self.p.poll() is not None:
+            self.start()
+        try:
+            self.p.stdin.write((line + "\n").encode("utf-8", "surrogateescape"))
+            self.p.stdin.flush()
+            ans = self.p.stdout.readline()
+        except (BrokenPipeError, OSError):
+            ans = b""
+        if not ans.endswith(b"\n"):
+            rc = self.p.wait()
+            self.p = None
+            return "crash rc=%s" % rc
+        return ans[:-1].decode("utf-8", "replace")
+
+    def close(self):
+        if self.p is not None:
+            try:
+                self.p.stdin.close()
+                self.p.wait(timeout=10)
+            except Exception:
+                self.p.kill()
+            self.p = None
+
+
+_POOLED = threading.local()
+
+
+def run_harness_pooled(lines):
+    """like run_harness_serial, through one long-lived worker per thread (restarted after a crash)"""
+    w = getattr(_POOLED, "w", None)
+    if w is None:
+        w = _POOLED.w = _Worker()
+    return [w.ask(l) for l in lines]
+
+
 def run_harness(lines, workers=None):
     lines = list(lines)
     if workers is None:
